@@ -1,12 +1,11 @@
 CONSTANTS
   Subs <- S2
-  Writers <- W2
-  MaxEvents = 5
-  MaxReconnect = 2
+  Writers <- W1
+  MaxEvents = 4
+  MaxReconnect = 1
   Styles <- MemOnly
   AtomicAppend = TRUE
   Dev_MemCursorByIndex = FALSE
 SPECIFICATION FairSpec
 INVARIANT TypeOK
 INVARIANT Inv_C16_strict
-PROPERTY Live_Delivered
